@@ -106,6 +106,10 @@ func linAddr(r *rng.R, spec string) uint32 {
 		edges := []uint32{0x9FFF, 0xA000, 0xA000 + 64*8192 - 1, 0xA000 + 64*8192, 0xFFFF, 0x10000, 0xFFFFF, 0x100000, 0x13FFFF, 0x140000,
 			0xA000 + 256*8192 - 1, 0xA000 + 256*8192, 0x10000 + 1<<19 - 1}
 		return edges[r.Intn(len(edges))]
+	case 6:
+		// the base-RAM cells that the CPU view hides behind a window or a register: reachable through the linear view only
+		shadow := []uint32{0xDE00, 0xDE01, 0xDE80, 0xDEFF, 0xDFFE, 0xDFFF, 0xA000, 0xBFFF, 0xC000, 0xC001, 0xFFFF, 0x0000, 0x0001, 0x0008, 0x000F, 0x9F00}
+		return shadow[r.Intn(len(shadow))]
 	}
 	return uint32(r.U64() % uint64(total))
 }
@@ -243,7 +247,10 @@ func sweepStats(b *strings.Builder, spec string, m memory.Memory) {
 	}
 	if isF256(spec) {
 		// the LUT counters are only reachable through the edit window: open it for each LUT in turn
-		// (the stores to $0000 count on MMU_MEM_CTRL, whose counter was reported above)
+		// (the stores to $0000 count on MMU_MEM_CTRL, whose counter was reported above); the register is put back
+		// afterwards: the data image that follows must show the machine as the history left it
+		old := m.Load(0)
+		defer m.Store(0, old)
 		for n := 0; n < 4; n++ {
 			m.Store(0, uint8(0x80|n<<4))
 			for i := 0; i < 8; i++ {
